@@ -32,6 +32,7 @@ from ..core import LOG
 from ..workload import Ctx, drive
 
 _uid = itertools.count(1000)
+_alt = itertools.count()
 SHARED_OPERAND: Any = None
 _uid_lock = threading.Lock()
 DEFAULT = Config.instance()
@@ -119,6 +120,13 @@ _shared_jit = _eqx.filter_jit(lambda o, v: o.mv(v))
 
 def tiny_operator(composite: bool = False) -> Any:
     d = DiagonalOperator(jnp.asarray([2.0, 4.0], dtype=jnp.float32), in_structure=jax.ShapeDtypeStruct((2,), jnp.float32))
+    if composite and next(_alt) % 2:
+        # a composite of two dense factors (no closed-form inverse for either): a @ b = diag(2, 4)
+        from furax._base.dense import DenseBlockDiagonalOperator
+        st = jax.ShapeDtypeStruct((2,), jnp.float32)
+        a = DenseBlockDiagonalOperator(jnp.asarray([[2.0, 0.0], [0.0, 2.0]], dtype=jnp.float32), st, 'ij,j->i')
+        b = DenseBlockDiagonalOperator(jnp.asarray([[1.0, 0.0], [0.0, 2.0]], dtype=jnp.float32), st, 'ij,j->i')
+        return a @ b
     if composite:
         # a composite operand: its reduce() returns a new object (sqrt(d) @ sqrt(d) = d)
         r = DiagonalOperator(jnp.sqrt(jnp.asarray([2.0, 4.0], dtype=jnp.float32)), in_structure=jax.ShapeDtypeStruct((2,), jnp.float32))
